@@ -89,7 +89,6 @@ import JdProofs.V1KeysDiffPatchC
 import JdProofs.V1KeysDiffPatchB
 import JdProofs.V1KeysDiffPatchA
 import JdProofs.V1Precision
-import JdProofs.OptSites
 import JdProps.C17Precision
 import JdProps.C17PrecisionKeys
 
@@ -484,13 +483,7 @@ theorem v1_text_roundtrip_list_precision (L : FloatLaws) {N : Nat} (I : IdxLaws 
 
 end
 
-/-! ### Option plumbing of the Go source = the model's (regenerated table, JdProofs/OptSites.lean)
-
-   Which option list each call inside v2/ and lib/ passes to `hashCode` / `Equals` / `diff` / `ident` / `dispatch` … is
-   regenerated from the Go source on every run (tools/optfacts, 187 sites) and proved equal to the table the model was
-   written against. A dropped or added option argument breaks this, whether or not a generated input reaches it. -/
-
-theorem option_plumbing_as_modelled : Gen.optSites = Jd.OptSites.expected :=
-  Jd.OptSites.option_plumbing_as_modelled
+/-! ### Option plumbing: the regenerated table of the calls inside the functions behind this property is proved equal to the
+    model's in JdProofs/CondSites/P_C17.lean (`option_plumbing_as_modelled_C17`), built and audited by this property's check. -/
 
 end Jd.Props.C17
